@@ -482,6 +482,13 @@ func kindsOf(c *media.Case) string {
 func C18(x *Ctx) {
 	x.prop = "C18"
 	c, h := x.C, x.H
+	if c.Cfg.Disk && h.Closed {
+		// one life cycle of a muxer must leave nothing in Directory, or restarts fill the disk
+		x.Stats.Add("C18.life_cycles_checked", 1)
+		if len(h.LeftAfterClose) > 0 {
+			x.fail("disk", "left-after-close", "after the muxer was closed Directory still holds %d files: %v", len(h.LeftAfterClose), h.LeftAfterClose)
+		}
+	}
 	views := x.Views()
 	nStreams := len(h.StreamIDs)
 	// parts per parent MSN per stream
